@@ -39,5 +39,15 @@ while IFS=$'\t' read -r COMMIT P S; do
   echo "REVERT $COMMIT $P exit=$RC recorded-signature=$SEEN $S"
 done < "$LIST"
 drop
+# 18c7b37 (diagnostic moved to stderr) is unreachable on its own since 0a2a733
+# keeps 2 MiB free: revert both to see C18's signature again
+WT="/tmp/revert_both_$$"
+if git -C /repo worktree add -q "$WT" HEAD && git -C "$WT" revert -n 0a2a733 >/dev/null 2>&1 && git -C "$WT" revert -n 18c7b37 >/dev/null 2>&1; then
+  OUT=$(GBV_REPO="$WT" ./check C18 2>&1); RC=$?
+  S="C18:jit:core-prints-on-stdout:translation-cache-nearly-full"
+  if echo "$OUT" | grep -qF "signature: $S"; then SEEN=seen; else SEEN=not-seen; fi
+  echo "REVERT 0a2a733+18c7b37 C18 exit=$RC recorded-signature=$SEEN $S"
+fi
+drop
 rm -f "$LIST"
 git -C /repo worktree prune
